@@ -114,7 +114,20 @@ def checkPost (σ : St) (now : Int) (batch : List PostAlert) (code : String) (cu
             -- the label set occurs several times in the batch (all stamped with the same receive time): what is stored
             -- carries the payload of the LAST valid one (putValue_identity: the submission wins a tie of UpdatedAt)
             let lastSame := (validOnes.filter fun (_, b) => b.labels == a.labels).getLast?.map (·.2.payload)
+            -- … and it is what posting the same alerts one after the other gives: every occurrence is merged with what
+            -- the previous one left (overlap_keeps_earliest_start along the batch), starting from the implementation's own
+            -- previous alert
+            let seqStore : Store := (validOnes.filter fun (_, b) => b.labels == a.labels).foldl
+              (fun (st : Store) (pb : PostAlert × Alert) => st.putAlert now pb.2)
+              (match findA old a.labels with | some o => [(o.labels, o)] | none => [])
+            let seqOk : Bool := match AList.lookup seqStore a.labels with
+              | some m => decide (m.startsAt = c.startsAt) && decide (m.endsAt = c.endsAt)
+              | none => true
             [Msg.tag "post:same-labels-twice-in-batch"] ++
+            (if lastSame = some a.payload ∧ !seqOk then
+               [Msg.propfail "overlap_keeps_earliest_start" "batch-not-sequential"
+                  s!"{ls} occurs several times in one batch: stored={showA c}, posting the occurrences one after the other gives {(AList.lookup seqStore a.labels).map showA}"]
+             else []) ++
             (if lastSame = some a.payload ∧ ¬ (c.updatedAt = now ∧ c.payload = a.payload) then
                [Msg.propfail "putValue_identity" "same-instant-older-wins" s!"{ls}: submitted last in the batch with payload={a.payload}, stored={showA c}"]
              else [])
